@@ -147,7 +147,7 @@ def verify_functions(quals, timeout_ms, procs=None):
     # budget, so that machine load does not flip a verdict
     for k, (o, t) in enumerate(zip(outs, tasks)):
         unk = set(r['name'] for r in o.get('results', []) if r['status'] == 'unknown')
-        if not unk or o.get('cached') or len(unk) > 4:
+        if not unk or o.get('cached') or len(unk) > 4 or any(r['status'] == 'sat' for r in o.get('results', [])):
             continue
         redo = RUN.verify_case(repo_root(), t[0], t[1], timeout_ms=max(t[2], 30000), only_names=unk)
         better = dict((r['name'], r) for r in redo.get('results', []) if r['status'] != 'unknown' and r['kind'] != 'vacuity')
@@ -285,6 +285,7 @@ def check_property(pid, tier='quick', seed=0):
     os.makedirs(os.path.join(HERE, 'replays'), exist_ok=True)
     seen_known = set()
     seen_names = set()
+    replay_cache = {}
     for r in failing:
         if r['name'] in seen_names and not match_known(known, pid, r['name']):
             continue
@@ -296,7 +297,10 @@ def check_property(pid, tier='quick', seed=0):
                 seen_known.add(k['id'])
                 print('KNOWN-FINDING: property=%s %s: %s' % (pid, k['id'], k['what']))
             continue
-        rep = run_replay_search(pid, r, tier, seed)
+        rkey = (r.get('fn'), r.get('case'))
+        if rkey not in replay_cache:
+            replay_cache[rkey] = run_replay_search(pid, r, tier, seed)
+        rep = replay_cache[rkey]
         rpath = os.path.join('replays', '%s-%s.json' % (pid, ''.join(ch if ch.isalnum() else '_' for ch in r['name'])[-120:]))
         doc = dict(property=pid, obligation=r['name'], function=r.get('fn'), case=r.get('case'),
                    solver_status=r['status'], backend=r.get('backend'), solver_model=r.get('model'),
